@@ -2,14 +2,18 @@
    Property theorems only.  [the_table] is REGENERATED from the Go source on every check
    (Gen/GenesisTable.v); the finite theorems are by computation over it, the lifting lemmas are
    generic (Proofs/GenesisProofs.v).  The property is false for the (module, prefix) pairs listed in
-   [known_holes] (classes kf_C20 2..11 and 13); each class has a [_refuted] statement, and the
-   positive theorems are stated on the complement.
+   [known_holes] (classes kf_C20 3..6, 8..11, 13..15); each class has a [_refuted] statement, and
+   the positive theorems are stated on the complement.
    fixed: property=C20 PENDING collector ExportGenesis emitted zero-valued net-fee records (class 1)
+   fixed: property=C20 PENDING auctionsV2 InitGenesis reset the exported auction id and user bid id
+          counters to 0 (class 2)
+   fixed: property=C20 PENDING auction V1 InitGenesis filled the lend dutch auctions (and their id
+          counter) from the DutchAuction field instead of DutchLendAuction (class 7)
    fixed: property=C20 PENDING collector InitGenesis dropped the lookup table, the auction mapping and
           the denoms mapping when the validating lookup setter failed (class 12)
-   Both classes and their [_refuted] theorems are deleted; their witnesses are the regression
-   examples [c20_netfee_regression] / [c20_collector_import_regression] below and the forced cases
-   0 and 1 of the behavioural run. *)
+   These classes and their [_refuted] theorems are deleted; their witnesses are the regression
+   examples [c20_*_regression] below and forced cases of the behavioural runs (TestC20 cases 0, 1;
+   TestC20Liq cases 0-3). *)
 From Coq Require Import String.
 From Comdex Require Import Lib.Base Lib.GenesisTypes Gen.GenesisTable Model.Genesis Proofs.GenesisProofs.
 Open Scope Z_scope.
@@ -83,7 +87,7 @@ Theorem c20_known_holes_refuted : forallb hole_is_hole known_holes = true.
 Proof. exact holes_are_holes. Qed.
 Print Assumptions c20_known_holes_refuted.
 
-(* classes 3, 6, 8, 11 (and the non-counter prefixes of 7): a live prefix that no genesis field
+(* classes 3, 6, 8, 11, 15 (and the non-counter prefixes of 14): a live prefix that no genesis field
    carries comes back empty *)
 Theorem c20_lost_refuted : forall p dv,
   In p prefixes -> classify the_table (p_mod p) (p_byte p) = CovLost ->
@@ -91,28 +95,15 @@ Theorem c20_lost_refuted : forall p dv,
 Proof. intros p dv Hin Hl. apply lost_refuted; [exact (in_pref_rows the_table p Hin)|exact Hl]. Qed.
 Print Assumptions c20_lost_refuted.
 
-(* class 7: the lend dutch auctions are exported (field DutchLendAuction) but InitGenesis fills
-   their prefix from the DutchAuction field, and both auction-id counters are the id of the last
-   dutch auction *)
+(* class 14: auction V1: both auction-id counters are the id of the LAST exported dutch / lend dutch
+   auction: after the newest auction was closed the counter goes back *)
 Theorem c20_auction_v1_refuted :
-  classify the_table "auction" 32 = CovMismatch 17 /\
   counter_restore the_table "auction" 19 = RLast [17] /\
-  counter_restore the_table "auction" 25 = RLast [17] /\
+  counter_restore the_table "auction" 25 = RLast [32] /\
   exists orig items, (forall i, In i (ids items) -> i <= orig) /\
                      restored_value (RLast [17]) orig items <> Some orig.
 Proof. repeat split; try (vm_compute; reflexivity). apply last_restore_reissues. Qed.
 Print Assumptions c20_auction_v1_refuted.
-
-(* class 2: auctionsV2 sets both exported counters to the constant 0 and never sets the limit-bid
-   id; the next auction id then collides with a live auction *)
-Theorem c20_auctionsV2_counters_refuted :
-  counter_restore the_table "auctionsV2" 1 = RZero /\
-  counter_restore the_table "auctionsV2" 5 = RZero /\
-  counter_restore the_table "auctionsV2" 3 = RAbsent /\
-  exists items, match restored_value RZero 1 items with
-                | Some v => In (next_id v) (ids items) | None => False end.
-Proof. repeat split; try (vm_compute; reflexivity). apply zero_restore_collides. Qed.
-Print Assumptions c20_auctionsV2_counters_refuted.
 
 (* class 4: liquidation V1 restores LockedVaultID as the number of locked vaults: with live ids
    {2,3} the next id is 3 *)
@@ -123,11 +114,13 @@ Theorem c20_liquidation_count_refuted :
 Proof. split; [vm_compute; reflexivity|apply count_restore_collides]. Qed.
 Print Assumptions c20_liquidation_count_refuted.
 
-(* classes 5 and 9: liquidationsV2.LockedVaultID and the locker id counter are never written by
-   InitGenesis: they read 0 and the next id (1) collides with a live record *)
+(* classes 5, 9 (and the limit-bid id of class 3): liquidationsV2.LockedVaultID, the locker id
+   counter and auctionsV2.LimitAuctionBidID are never written by InitGenesis: they read 0 and the
+   next id (1) collides with a live record *)
 Theorem c20_absent_counters_refuted :
   counter_restore the_table "liquidationsV2" 3 = RAbsent /\
   counter_restore the_table "locker" 23 = RAbsent /\
+  counter_restore the_table "auctionsV2" 3 = RAbsent /\
   exists items, restored_value RAbsent 1 items = None /\ In (next_id 0) (ids items).
 Proof. repeat split; try (vm_compute; reflexivity). apply absent_restore_collides. Qed.
 Print Assumptions c20_absent_counters_refuted.
@@ -160,6 +153,23 @@ Example c20_netfee_regression :
   classify the_table "collector" 8 = CovDirect /\ at_risk the_table "collector" 8 = false /\
   kf_C20_any "collector" 8 = false /\
   forall dv, get (roundtrip dv the_table "collector" [(8, [(1, 1)])]) 8 = [(1, 1)].
+Proof. repeat split; vm_compute; reflexivity. Qed.
+
+(* C20-F2 (fixed): both exported auctionsV2 counters are fed back from their own fields: they come
+   back with their value, so the next auction / bid id is the one the original chain assigns *)
+Example c20_auctionsV2_counters_regression :
+  counter_restore the_table "auctionsV2" 1 = RExact /\ counter_restore the_table "auctionsV2" 5 = RExact /\
+  counter_ok the_table "auctionsV2" 1 = true /\ counter_ok the_table "auctionsV2" 5 = true /\
+  kf_C20_any "auctionsV2" 1 = false /\ kf_C20_any "auctionsV2" 5 = false /\
+  restored_value (counter_restore the_table "auctionsV2" 1) 5 [(1, 0); (2, 0); (5, 0)] = Some 5.
+Proof. vm_compute. repeat split. Qed.
+
+(* C20-F7 (fixed): the lend dutch auctions are filled from the field that exports them; a running
+   vault dutch auction (prefix 17) no longer shows up under the lend prefix 32 *)
+Example c20_lend_auctions_regression :
+  classify the_table "auction" 32 = CovDirect /\ kf_C20_any "auction" 32 = false /\
+  forall dv, let s := [(17, [(1, 7); (2, 8)]); (32, [])] in
+    get (roundtrip dv the_table "auction" s) 32 = [] /\ get (roundtrip dv the_table "auction" s) 17 = [(1, 7); (2, 8)].
 Proof. repeat split; vm_compute; reflexivity. Qed.
 
 (* C20-F12 (fixed): no prefix of the collector is at risk any more; lookup table (1), asset
